@@ -91,6 +91,11 @@ func parseTimeZone(tz string) (*time.Location, error) {
 		return nil, fmt.Errorf("invalid timezone")
 	}
 
+	// "MM" counts the minutes of an hour
+	if minutes > 59 {
+		return nil, fmt.Errorf("invalid timezone")
+	}
+
 	// convert to seconds
 	offsetSeconds := offsetMultiplier * (60 * ((60 * hours) + minutes))
 
